@@ -65,11 +65,14 @@ package mp4
 // finite input; with the registry call havocking the reader state this is not derivable here and is not claimed.
 // Elements of MoofBox.Trafs are appended by MoofBox.AddChild from decoded (non-nil) traf boxes only; that invariant of the
 // decoded tree is assumed at the two call sites below (trustkind with the obligation text, spaces removed).
+// The preconditions of File.AddChild (contract of C12: non-nil recorded sidx boxes, well-formed last segment/fragment, an mdat
+// of a fragmented file follows a moof, ...) are invariants of the File that DecodeFile builds box by box; they are established
+// by construction (lines cited in verif_contracts_c12.go) but not carried as a proved loop invariant here: assumed.
 //@ func DecodeFile
-//@   trustkind typeassert nil@recv:traf.ContainsSencBox() pre:mp4.DecodeBoxLazyMdat@rsOK(r)
+//@   trustkind typeassert nil@recv:traf.ContainsSencBox() pre:mp4.DecodeBoxLazyMdat@rsOK(r) pre:mp4.(*File).AddChild
 //@   loop 1 noterm
 //@ func DecodeFileSR
-//@   trustkind typeassert
+//@   trustkind typeassert pre:mp4.(*File).AddChild
 //@   requires sr.(*bits.FixedSliceReader).err == nil
 //@   loop 1 noterm
 // children hold only results of successful DecodeBox calls (non-nil); the quantified invariant over the appended slice is
